@@ -161,15 +161,15 @@ theorem inField_stages (I : List DImpl) (rec : InRec) (lit : LitRec) (kvs : List
 
 /-- output: the type-level hooks run on the resolved value before the scalar's own serialisation -/
 theorem complete_scalar_stages (n : Nat) (S : DSchema) (vars : Vars) (tn : String) (dirs : List Use) (v : DV) (subs : List Sel)
-    (ho : S.findObj tn = none) (hs : S.findIn tn = some (.scalar tn dirs)) :
+    (ho : S.findObj tn = none) (ha : S.findAbs tn = none) (hs : S.findIn tn = some (.scalar tn dirs)) :
     complete (n+1) S vars (.named tn) v subs = bind (wrap S.impls "out" dirs ret v) scalarSerialise := by
-  simp [complete, ho, hs]
+  simp [complete, ho, ha, hs]
 
 /-- output of an enum: the hooks of the enum TYPE run on the resolved value, then those of the enum VALUE -/
 theorem complete_enum_stages (n : Nat) (S : DSchema) (vars : Vars) (tn : String) (dirs : List Use) (vals : List (String × List Use))
-    (v : DV) (subs : List Sel) (ho : S.findObj tn = none) (hs : S.findIn tn = some (.enum tn dirs vals)) :
+    (v : DV) (subs : List Sel) (ho : S.findObj tn = none) (ha : S.findAbs tn = none) (hs : S.findIn tn = some (.enum tn dirs vals)) :
     complete (n+1) S vars (.named tn) v subs = bind (wrap S.impls "out" dirs ret v) (enumSerialise S.impls vals) := by
-  simp [complete, ho, hs]
+  simp [complete, ho, ha, hs]
 
 /-- … and inside `enumSerialise` the hooks of the enum VALUE that was resolved run on it -/
 theorem enumSerialise_value_hooks (I : List DImpl) (vals : List (String × List Use)) (s : String) (vdirs : List Use)
@@ -204,6 +204,24 @@ theorem bind_assoc {α β γ : Type} (x : R α) (f : α → R β) (g : β → R 
       cases hg : g b with
       | none => rfl
       | some r => simp [List.append_assoc]
+
+/-- output of an interface / union: the hooks of the ABSTRACT type run first on the resolved value, then (for a
+    non-null result) the hooks of the RUNTIME object type, then that object's selection is executed -/
+theorem complete_abstract_stages (n : Nat) (S : DSchema) (vars : Vars) (tn rt : String) (ad : AbsDef) (od : ObjDef)
+    (kvs : List (String × DV)) (subs : List Sel) (ho : S.findObj tn = none) (ha : S.findAbs tn = some ad)
+    (hnohook : ∀ u ∈ ad.dirs, applies S.impls "out" u = none)
+    (hrt : runtimeTypeName (.obj kvs) = some rt) (hod : S.findObj rt = some od) :
+    complete (n+1) S vars (.named tn) (.obj kvs) subs =
+      bind (wrap S.impls "out" od.dirs ret (.obj kvs)) fun r2 =>
+        (match r2 with | .obj _ => execSelections n S vars od r2 subs | _ => none) := by
+  have hw : wrap S.impls "out" ad.dirs ret (.obj kvs) = ret (.obj kvs) := by
+    have : apps S.impls "out" ad.dirs = [] := by
+      unfold apps
+      rw [List.filterMap_eq_nil_iff]
+      intro u hu; simp [hnohook u hu]
+    rw [wrap_spec, this]; simp [preAll, postAll, enters, exits, ret]
+  simp only [complete, ho, ha, hw, bind_ret_left, hrt, hod]
+  rfl
 
 /-- a scalar-typed argument written as the literal `"s"` … -/
 def argByLiteral (fuel : Nat) (S : DSchema) (ad : InField) (s : String) : R (Option DV) :=
